@@ -14,6 +14,7 @@
 #include "gmp++/gmp++.h"
 #include "givrational.h"
 #include "qfield.h"
+#include "givrandom.h"
 
 using namespace Givaro;
 
@@ -28,11 +29,70 @@ static int64_t toi64(const std::string& s) { return (int64_t) strtoll(s.c_str(),
 static uint64_t tou64(const std::string& s) { return (uint64_t) strtoull(s.c_str(), NULL, 10); }
 
 // raw operand: exactly (n, d) for d > 0 (the constructor with red = 0 only normalises the sign of d)
-static Rational mk(const std::string& n, const std::string& d) { return Rational(toI(n), toI(d), 0); }
+// a zero stored as 0/d with d > 1 (what `x -= y` leaves in NoReduce mode) cannot be built by a constructor: write the members
+struct RawRat : public Rational { RawRat(const Integer& n, const Integer& d) { num = n; den = d; } };
+static Rational mk(const std::string& n, const std::string& d) {
+    if (n == "0" && d != "1") return RawRat(toI(n), toI(d));
+    return Rational(toI(n), toI(d), 0);
+}
+
+
+// ------------------------------------------------ generic QField wrapper call with an arbitrary aliasing pattern.
+// variant  qw.<op>.<pat> : pat has one digit per parameter of the wrapper (r first), the digit is the index of the
+// object passed for that parameter (equal digits = the same object).  The arguments are the VALUES of the input
+// parameters in declaration order (for the *in forms r is an input too).  Objects are filled in parameter order;
+// an object that receives no input value holds 7/5.  Output: the object passed as r, then a check that every
+// object not passed as r still holds the value it was given (the wrappers take their inputs by const reference).
+static std::string run_qw(const std::string& op, const std::string& pat, const std::vector<std::string>& a) {
+    QField<Rational> Q;
+    Rational s[4] = { Rational(7, 5), Rational(7, 5), Rational(7, 5), Rational(7, 5) };
+    const bool inpl = (op == "axpyin" || op == "maxpyin" || op == "axmyin" || op == "addin" || op == "subin" || op == "mulin" || op == "divin" || op == "negin" || op == "invin");
+    const size_t np = pat.size();
+    size_t ai = 0;
+    Rational given[4] = { Rational(7, 5), Rational(7, 5), Rational(7, 5), Rational(7, 5) };
+    for (size_t i = (inpl ? 0 : 1); i < np; ++i, ai += 2) {
+        if (ai + 1 >= a.size()) return "BAD-ARGS";
+        s[pat[i] - '0'] = mk(a[ai], a[ai + 1]);
+        given[pat[i] - '0'] = mk(a[ai], a[ai + 1]);
+    }
+#define P(i) s[pat[i] - '0']
+    Rational* ret = 0;
+    if (op == "add" && np == 3) ret = &Q.add(P(0), P(1), P(2));
+    else if (op == "sub" && np == 3) ret = &Q.sub(P(0), P(1), P(2));
+    else if (op == "mul" && np == 3) ret = &Q.mul(P(0), P(1), P(2));
+    else if (op == "div" && np == 3) ret = &Q.div(P(0), P(1), P(2));
+    else if (op == "axpy" && np == 4) ret = &Q.axpy(P(0), P(1), P(2), P(3));
+    else if (op == "maxpy" && np == 4) ret = &Q.maxpy(P(0), P(1), P(2), P(3));
+    else if (op == "axmy" && np == 4) ret = &Q.axmy(P(0), P(1), P(2), P(3));
+    else if (op == "axpyin" && np == 3) ret = &Q.axpyin(P(0), P(1), P(2));
+    else if (op == "maxpyin" && np == 3) ret = &Q.maxpyin(P(0), P(1), P(2));
+    else if (op == "axmyin" && np == 3) ret = &Q.axmyin(P(0), P(1), P(2));
+    else if (op == "addin" && np == 2) ret = &Q.addin(P(0), P(1));
+    else if (op == "subin" && np == 2) ret = &Q.subin(P(0), P(1));
+    else if (op == "mulin" && np == 2) ret = &Q.mulin(P(0), P(1));
+    else if (op == "divin" && np == 2) ret = &Q.divin(P(0), P(1));
+    else if (op == "neg" && np == 2) ret = &Q.neg(P(0), P(1));
+    else if (op == "inv" && np == 2) ret = &Q.inv(P(0), P(1));
+    else if (op == "assign" && np == 2) ret = &Q.assign(P(0), P(1));
+    else return "UNKNOWN-QW-OP";
+    std::string out = str(P(0));
+    if (ret != &P(0)) out += " BAD-RETURNED-REFERENCE";
+    for (int k = 0; k < 4; ++k) {
+        if (k == pat[0] - '0') continue;
+        if (str(s[k]) != str(given[k])) out += " BAD-INPUT-MODIFIED";
+    }
+#undef P
+    return out;
+}
 
 static std::string run(const std::string& v, const std::vector<std::string>& a) {
     std::ostringstream o;
     QField<Rational> Q;
+    if (v.compare(0, 3, "qw.") == 0) {
+        size_t dot = v.find('.', 3);
+        if (dot == std::string::npos) return "UNKNOWN-VARIANT";
+        return run_qw(v.substr(3, dot - 3), v.substr(dot + 1), a);
+    }
     // ------------------------------------------------ constructors
     if (v == "ctor.neutral") { Rational r(a[0] == "1" ? Neutral::one : Neutral::zero); return str(r); }
     if (v == "ctor.default") { Rational r; return str(r); }
@@ -57,6 +117,16 @@ static std::string run(const std::string& v, const std::vector<std::string>& a) 
         if (v == "ctor.string") { Rational r(s.c_str()); return str(r); }
         Rational r(7, 5); std::istringstream in(s); in >> r; return str(r);
     }
+    if (v == "rt.double") {   // Rational(x) converted back must be x (every finite double is num/den with both members below 2^53 * 2^k)
+        uint64_t bits = strtoull(a[0].c_str(), NULL, 16); double x; memcpy(&x, &bits, 8);
+        Rational r(x); double y = (double) r; uint64_t b2; memcpy(&b2, &y, 8);
+        char buf[32]; snprintf(buf, sizeof buf, "%016llx", (unsigned long long) b2); return buf;
+    }
+    if (v == "rt.float") {
+        uint32_t bits = (uint32_t) strtoul(a[0].c_str(), NULL, 16); float f; memcpy(&f, &bits, 4);
+        Rational r(7, 5); Q.init(r, f); float y = (float) r; uint32_t b2; memcpy(&b2, &y, 4);
+        char buf[32]; snprintf(buf, sizeof buf, "%08x", b2); return buf;
+    }
     if (v == "q.init.float") {
         uint32_t bits = (uint32_t) strtoul(a[0].c_str(), NULL, 16); float f; memcpy(&f, &bits, 4);
         Rational r(7, 5); Q.init(r, f); return str(r);
@@ -67,6 +137,26 @@ static std::string run(const std::string& v, const std::vector<std::string>& a) 
     }
     if (v == "consts") {
         return str(Rational::zero) + " " + str(Rational::one) + " " + str(Rational::mOne) + " " + str(Q.zero) + " " + str(Q.one) + " " + str(Q.mOne);
+    }
+    if (v == "q.consts2") {   // QField built from an arbitrary object; characteristic / cardinality / domain comparison
+        QField<Rational> Q2(5); Integer ch(9), ca(9); Q2.characteristic(ch); Q2.cardinality(ca);
+        o << str(Q2.zero) << " " << str(Q2.one) << " " << str(Q2.mOne) << " " << Q2.characteristic() << " " << Q2.cardinality() << " "
+          << str(ch) << " " << str(ca) << " " << (Q == Q2) << " " << (Q != Q2);
+        return o.str();
+    }
+    if (v == "q.random") {    // results of the random generators must be canonical whatever their value
+        GivRandom gen(12345); Rational r(7, 5), bnd = mk(a[0], a[1]); std::string out;
+        for (int i = 0; i < 8; ++i) { Q.random(gen, r, (int64_t) (i + 1)); out += str(r) + " "; }
+        for (int i = 0; i < 8; ++i) { Q.nonzerorandom(gen, r, (int64_t) (i + 1)); out += str(r) + " "; if (isZero(r)) out += "BAD-ZERO "; }
+        if (!isZero(bnd)) {
+            for (int i = 0; i < 4; ++i) { Q.random(gen, r, bnd); out += str(r) + " "; }
+            for (int i = 0; i < 4; ++i) { Q.nonzerorandom(gen, r, bnd); out += str(r) + " "; if (isZero(r)) out += "BAD-ZERO "; }
+        }
+        return out;
+    }
+    if (v == "q.read") {
+        std::string s = a[0]; for (size_t i = 0; i < s.size(); ++i) if (s[i] == '_') s[i] = ' ';
+        Rational r(7, 5); std::istringstream in(s); Q.read(in, r); return str(r);
     }
     if (v == "q.init0") { Rational r(7, 5); Q.init(r); return str(r); }   // init(a) leaves a unchanged
     if (v == "q.init.int32") { Rational r(7, 5); Q.init(r, (int32_t) toi64(a[0])); return str(r); }
@@ -105,6 +195,9 @@ static std::string run(const std::string& v, const std::vector<std::string>& a) 
         double dd = 7.5; if (v == "conv.double") dd = (double) x; else Q.convert(dd, x);
         uint64_t bits; memcpy(&bits, &dd, 8); char buf[32]; snprintf(buf, sizeof buf, "%016llx", (unsigned long long) bits); return buf;
     }
+    if (v == "q.convert.float") {
+        float ff = 7.5f; Q.convert(ff, x); uint32_t bits; memcpy(&bits, &ff, 4); char buf[32]; snprintf(buf, sizeof buf, "%08x", bits); return buf;
+    }
     if (v == "conv.float") {
         float ff = (float) x; uint32_t bits; memcpy(&bits, &ff, 4); char buf[32]; snprintf(buf, sizeof buf, "%08x", bits); return buf;
     }
@@ -133,6 +226,10 @@ static std::string run(const std::string& v, const std::vector<std::string>& a) 
     if (v == "ceil") { return str(ceil(x)); }
     if (v == "round") { return str(round(x)); }
     if (v == "nume_deno") { Integer n, d; Q.get_num(n, x); Q.get_den(d, x); return str(n) + " " + str(d); }
+    if (v == "misc") {   // length = bytes of the two limb arrays; sign through both interfaces
+        o << length(x) << " " << Q.length(x) << " " << sign(x) << " " << Q.sign(x);
+        return o.str();
+    }
     if (v == "preds") {
         o << (isZero(x) ? 1 : 0) << " " << (isOne(x) ? 1 : 0) << " " << (isMOne(x) ? 1 : 0) << " "
           << (isInteger(x) ? 1 : 0) << " " << sign(x);
